@@ -397,6 +397,9 @@ var quickResume = map[string]bool{
 	"network.AcquirePriv-auth": true, "telnet.Open": true, "ssh.Open": true, "netconf.Open/1.0": true, "netconf.Open/1.1": true, "netconf.Get/1.1": true,
 }
 
+// NETCONF operations whose stall points are explored with one deviation in the quick tier
+var quickDev = map[string]bool{"netconf.Get/1.0": true, "netconf.Get/1.1": true, "netconf.EditConfig/1.1": true, "netconf.EstablishPeriodicSubscription/1.1": true}
+
 func scenarios(tier string) []sched.Scenario {
 	var out []sched.Scenario
 	for _, op := range cm.Ops() {
@@ -420,6 +423,8 @@ func scenarios(tier string) []sched.Scenario {
 				for sh := 0; sh < 16; sh++ {
 					out = append(out, scenario(op, st, 0, sched.Bounds{Pre: 1, Env: 1, Total: 2}, sh, 16))
 				}
+			case op.Kind == "nc" && !quickDev[op.Name]:
+				// the send path is shared by all RPC methods: the quick tier deviates around representatives only
 			case op.Recovery && op.Kind == "cli" || st.name == "conn":
 				for sh := 0; sh < 8; sh++ {
 					out = append(out, scenario(op, st, 0, sched.Bounds{Pre: 1, Env: 1, Total: 1}, sh, 8))
